@@ -428,8 +428,11 @@ def _gen_methods(cx, pkg, main, svc, noun, res, enums, msgs):
         if cx.chance("p_http"):
             m["http"] = {"verb": "post", "path": f"{pre}/{{parent={pwild}}}/{coll}", "body": low}
             if cx.chance("p_additional_binding") and rng.random() < 0.5:
-                m["http"]["body"] = "*"
-                m["http"]["additional"] = [{"verb": "post", "path": f"{pre}/{{parent=organizations/*}}/{coll}", "body": low}]
+                if rng.random() < 0.5:
+                    m["http"]["body"] = "*"
+                    m["http"]["additional"] = [{"verb": "post", "path": f"{pre}/{{parent=organizations/*}}/{coll}", "body": low}]
+                else:
+                    m["http"]["additional"] = [{"verb": "post", "path": f"{pre}/{{parent=organizations/*}}/{coll}", "body": "*"}]
         if cx.chance("p_signature"):
             m["signatures"] = rng.choice([
                 [f"parent,{low},{low}_id"], [f"parent,{low},{low}_id", "parent," + low],
